@@ -223,4 +223,75 @@ def collectorRun (order : List Nat) (s : CState) : List CIn → CState × List C
     let (s'', os) := collectorRun order s' is
     (s'', o :: os)
 
+/-! ## competing callers of the targets
+A target method may also be called by another transaction (in the correspondence: an
+`AdapterTrans` per target).  Targets are exclusive, so that transaction conflicts with the
+transformer's transaction that *uses* the target, and the eager scheduler grants the one that
+comes first in the priority order (`first` = the competitor precedes the transformer's
+transaction; read from the real manager).  From the transformer's side a target taken by a
+preceding competitor is as good as not ready; a competitor that comes later runs iff the
+transformer's transaction using the target does not run.  "Called by the transformer" (`own`) is
+distinct from "the target ran" (`seen`). -/
+
+structure CompIn where
+  first : Bool         -- the competitor precedes the transformer's transaction in the priority order
+  att : Option Nat     -- the competitor attempts a call with this argument
+deriving Repr, DecidableEq
+
+/-- readiness of a target as the transformer's transaction experiences it -/
+def effReady (t : Bool × Nat) (c : CompIn) : Bool × Nat := (t.1 && !(c.first && c.att.isSome), t.2)
+
+def effTgts (tgts : List (Bool × Nat)) (comps : List CompIn) : List (Bool × Nat) :=
+  List.zipWith effReady tgts comps
+
+/-- does the competitor's call execute? `used` = the transformer's transaction using the target runs -/
+def compDone (t : Bool × Nat) (c : CompIn) (used : Bool) : Bool :=
+  c.att.isSome && t.1 && (c.first || !used)
+
+/-- the argument the target method itself receives (none = the target does not run) -/
+def seenArg (own : Option Nat) (c : CompIn) (done : Bool) : Option Nat :=
+  match own with
+  | some a => some a
+  | none => if done then c.att else none
+
+structure PCOut where
+  res : Option Nat
+  own : List (Option Nat)    -- per target: the transformer's own call (its argument)
+  comp : List Bool           -- per target: the competitor's call executes
+  seen : List (Option Nat)   -- per target: argument the target receives from whoever calls it
+deriving Repr, DecidableEq
+
+/-- a multi-target transformer (`productStep comb` / `tryProductStep comb`) among competitors;
+    its transaction(s) use a target exactly when they call it -/
+def withComps (core : PIn → POut) (i : PIn) (comps : List CompIn) : PCOut :=
+  let o := core { i with tgts := effTgts i.tgts comps }
+  let tc := (i.tgts.zip comps).zip o.tcalls
+  let cd := tc.map (fun x => compDone x.1.1 x.1.2 x.2.isSome)
+  { res := o.res, own := o.tcalls, comp := cd,
+    seen := tc.map (fun x => seenArg x.2 x.1.2 (compDone x.1.1 x.1.2 x.2.isSome)) }
+
+structure UCOut where
+  res : Option Nat
+  own : Option Nat
+  comp : Bool
+  seen : Option Nat
+deriving Repr, DecidableEq
+
+/-- MethodFilter among a competitor.  Plain mode: the method's transaction uses (locks) the target
+    whenever it runs, called or not; `use_condition` mode: only the branch that calls it. -/
+def filterCompStep (useCond : Bool) (cond : Nat → Nat) (dflt : Nat) (i : UIn) (c : CompIn) : UCOut :=
+  let o := filterStep useCond cond dflt { i with trdy := (effReady (i.trdy, i.tret) c).1 }
+  let used := if useCond then o.tcall.isSome else o.res.isSome
+  let cd := compDone (i.trdy, i.tret) c used
+  { res := o.res, own := o.tcall, comp := cd, seen := seenArg o.tcall c cd }
+
+/-- Collector among competitors of its targets: the connecting transaction of target `k` uses it
+    iff it runs -/
+def collectorCompStep (order : List Nat) (s : CState) (i : CIn) (comps : List CompIn) :
+    CState × COut × List Bool :=
+  let r := collectorStep order s { i with tgts := effTgts i.tgts comps }
+  let used := (List.range i.tgts.length).map (fun k => r.2.called.map (·.1) == some k)
+  let cd := ((i.tgts.zip comps).zip used).map (fun x => compDone x.1.1 x.1.2 x.2)
+  (r.1, r.2, cd)
+
 end TxV.Transformers
